@@ -36,6 +36,7 @@ CODECS_GEN = [
     ("rtph264", "H264"), ("rtph265", "H265"), ("rtpav1", "AV1"), ("rtpvp8", "VP8"), ("rtpvp9", "VP9"),
     ("rtpfragmented", "Fragmented"), ("rtpklv", "KLV"),
 ]
+CODECS_SLOW = [("rtpmpeg1video", "MPEG1Video")]
 
 def codec_runs(prefix, suffix="", quick=None, thorough=None, extra_entries=None, flags=None):
     runs = []
@@ -74,7 +75,8 @@ PROPS["C08"] = {
     "level_note": 'Outside: M-JPEG, MPEG-4 audio, MPEG-1 audio/video, AC-3 decoders (not yet carried); inductive cap step for H264/H265 (solver timeouts on length-only data, dropped rather than weakened); heap measured as reachable slice lengths.',
     "runs": codec_runs("ZzC08", "Hist", quick={"*": {}, "rtpvp9": {"K": 2, "P": 5}}, thorough={"*": {"K": 3}, "rtpvp9": {"K": 2, "P": 8}},
                        extra_entries={"rtpklv": ["ZzC08KLVInd"], "rtpfragmented": ["ZzC08FragmentedInd"], "rtpvp8": ["ZzC08VP8Ind"],
-                                      "rtpvp9": ["ZzC08VP9Ind"], "rtpav1": ["ZzC08AV1Ind"]}),
+                                      "rtpvp9": ["ZzC08VP9Ind"], "rtpav1": ["ZzC08AV1Ind"]})
+    + [R("mpeg1video", "pkg/format/rtpmpeg1video", "pkg/format/rtpmpeg1video", ["ZzC08MPEG1VideoHist", "ZzC08MPEG1VideoInd"], flags={"allow": "unwind"})],
 }
 
 # ---------------------------------------------------------------- C09
